@@ -109,12 +109,19 @@ def copyCells (s : Heap) : List Cell → Heap × List Cell
     let (s2, t') := copyCells s1 t
     (s2, c' :: t')
 
+def copyMap (s : Heap) : List (Str × Cell) → Heap × List (Str × Cell)
+  | [] => (s, [])
+  | (k, c) :: t =>
+    let (s1, c') := copyCell s c
+    let (s2, t') := copyMap s1 t
+    (s2, (k, c') :: t')
+
 /-- copy construction of a payload: `String(const String&)`, `List(const List&)`, … -/
 def copyPay (s : Heap) : Pay → Heap × Pay
   | .str x => (s, .str x)
   | .list cs => let (s', cs') := copyCells s cs; (s', .list cs')
   | .array cs => let (s', cs') := copyCells s cs; (s', .array cs')
-  | .map m => let (s', cs') := copyCells s (m.map (·.2)); (s', .map ((m.map (·.1)).zip cs'))
+  | .map m => let (s', m') := copyMap s m; (s', .map m')
 
 /-- `clear()` / `~Variant()` of the Variant in a cell: decrement, and at zero destroy the payload
     (every element in turn) and free the block.  `none`: out of fuel or dangling pointer. -/
@@ -165,17 +172,20 @@ def srcCopies (rd : Nat → Cell) (s : Heap) : List Src → Heap × List Cell
 def emptyPay (ds : DblSem) (s : Heap) (kind : Nat) (c : Cell) : Pay :=
   if kind = 7 then .map [] else if kind = 8 then .list [] else if kind = 9 then .array [] else .str (cellStr ds s c)
 
+/-- the copy of the const accessor's result: the payload when the type matches, else the static empty
+    container / the string conversion -/
+def accessPay (ds : DblSem) (s : Heap) (c : Cell) (kind : Nat) : Heap × Pay :=
+  if cellType s c = kind then
+    (match c with
+     | .ptr b => (match s.heap b with | some blk => copyPay s blk.pay | none => (s, emptyPay ds s kind c))
+     | _ => (s, emptyPay ds s kind c))
+  else (s, emptyPay ds s kind c)
+
 /-- the mutable accessor of type `kind` on the Variant in cell `c`; returns the new cell (a pointer
     to a block of that type with `ref = 1`) -/
 def accessCell (fuel : Nat) (ds : DblSem) (s : Heap) (c : Cell) (kind : Nat) : Option (Heap × Cell) :=
   if cellType s c ≠ kind ∨ cellRef s c > 1 then
-    -- the copy of the const accessor's result
-    let (s1, p) :=
-      if cellType s c = kind then
-        (match c with
-         | .ptr b => (match s.heap b with | some blk => copyPay s blk.pay | none => (s, emptyPay ds s kind c))
-         | _ => (s, emptyPay ds s kind c))
-      else (s, emptyPay ds s kind c)
+    let (s1, p) := accessPay ds s c kind
     let (s2, b) := alloc s1 p
     match release fuel s2 c with
     | some s3 => some (s3, .ptr b)
@@ -348,7 +358,9 @@ def walkMut (fuel : Nat) (ds : DblSem) (rd : Nat → Cell) (s : Heap) (c : Cell)
        | some blk =>
          (match blk.pay.getCell st with
           | some ci =>
-            (match walkMut fuel ds rd s1 ci p lf with
+            -- the element is operated on where it stands; the model takes it out of its slot for the
+            -- time of the nested call (nothing reads the slot meanwhile) and stores the result back
+            (match walkMut fuel ds rd (setPay s1 b (blk.pay.setCell st .null)) ci p lf with
              | some (s2, ci') =>
                (match s2.heap b with
                 | some blk2 => some (setPay s2 b (blk2.pay.setCell st ci'), .ptr b)
